@@ -77,6 +77,14 @@ pub fn checks(_tier: Tier) -> Vec<Check> {
                 if cfg!(feature = "tables") {
                     items.push(Req::new("sm.const_table", vec![s]));
                 }
+                // the same entry added to a NON-identity accumulator (an odd radix-16 digit is processed
+                // first), so that its 2dxy component matters too: from the identity T = 0 hides it
+                let odd = if i == 0 { Sc::from_u256(&U256::ONE.shl(12)) } else { Sc::from_u64(16) };
+                let s2 = Sc::from_u256(&U256::ONE.shl(8 * i)).mul(&Sc::from_u64(j)).add(&odd).to_bytes().to_vec();
+                items.push(Req::new("sm.mul_base", vec![s2.clone()]));
+                if cfg!(feature = "tables") {
+                    items.push(Req::new("sm.const_table", vec![s2]));
+                }
             }
         }
         let id = crate::model::ed::Aff::IDENTITY.compress().to_vec();
